@@ -175,6 +175,14 @@ func (g *c01gen) dml() string {
 		return fmt.Sprintf("(%d, %d)", id, n)
 	}
 	_ = tail
+	if g.r.Bool(0.08) {
+		// every record is replaced by itself with values that only differ in their spelling (letter case,
+		// surrounding blanks, a number written as a float): still a change of the table
+		if three {
+			return fmt.Sprintf("REPLACE INTO %s (id, n, s) USING (id) SELECT id, n, %s FROM %s;", t, g.r.PickS("UPPER(s)", "LOWER(s)", "UPPER(s)"), t)
+		}
+		return fmt.Sprintf("REPLACE INTO %s (id, n) USING (id) SELECT id, STRING(n) || '.0' FROM %s WHERE n IS NOT NULL;", t, t)
+	}
 	switch g.r.Intn(9) {
 	case 0:
 		return fmt.Sprintf("INSERT INTO %s %s VALUES %s;", t, cols, val(100+g.uniq, g.r.Intn(9), "new"))
